@@ -20,6 +20,7 @@ func init() {
 	for k, v := range map[string]externModel{
 		"fmt.Errorf":        modelNonNilError,
 		"errors.New":        modelNonNilError,
+		"errors.Join":       modelErrorsJoin,
 		"strings.EqualFold": modelEqualFold,
 		"sort.Slice":        modelSortSlice,
 		"sort.SliceStable":  modelSortSlice,
@@ -441,4 +442,25 @@ func (f *Frame) modelSprintf(st *State, anyT types.Type, args []Val) (Val, bool)
 	}
 	f.ctx.assume(Implies(allStr, Eq(res, cat)))
 	return res, true
+}
+
+// modelErrorsJoin: errors.Join(errs...) is nil exactly when every argument is nil (documented); for a
+// literal argument list the condition is spelled out, otherwise nothing is known about the result.
+func modelErrorsJoin(f *Frame, st *State, r *Term, fn *ssa.Function, args []Val, pos token.Pos) Val {
+	trust(f, "errors.Join returns nil exactly when all its arguments are nil and has no other effect")
+	v := f.ctx.fresh("err", SAny)
+	if len(args) == 1 {
+		if vs, ok := args[0].(*Term); ok && vs.S == SSlc {
+			if n, isLit := SlcLen(vs).intVal(); isLit && n <= 6 {
+				et := fn.Signature.Params().At(0).Type().(*types.Slice).Elem()
+				E := f.ctx.comp(st, f.eName(et), ArrS(SInt, ArrS(SInt, SAny)))
+				allNil := True
+				for j := int64(0); j < n; j++ {
+					allNil = And(allNil, Eq(Select(Select(E, SlcBase(vs)), Slot(SlcOff(vs), IntLit(j))), Atom("anynil", SAny)))
+				}
+				f.ctx.assume(Eq(Eq(v, Atom("anynil", SAny)), allNil))
+			}
+		}
+	}
+	return v
 }
